@@ -21,8 +21,12 @@ VARIABLES tid, l, st, fails, ex
 vars == <<tid, l, st, fails, ex>>
 R(s, f, e) == [st |-> s, fails |-> f, ex |-> e]
 G(c, ok) == IF ok THEN {} ELSE {c}
-InitSt == [algo |-> "", X |-> <<>>, y |-> <<>>, targets |-> <<>>, reg |-> Zero, evals |-> <<>>, dataOK |-> TRUE]
+InitSt == [algo |-> "", X |-> <<>>, y |-> <<>>, targets |-> <<>>, reg |-> Zero, evals |-> <<>>, dataOK |-> TRUE,
+           \* the backtracking machine of LMNN (MC_LMNN), followed on the LOGGED numbers: step size, the accepted point
+           \* (transformation, logged objective, logged gradient), its position in the history
+           lr |-> Zero, up |-> One, curL |-> <<>>, curV |-> Zero, curG |-> <<>>, hasCur |-> FALSE]
 
+Half == <<1, -1, <<16384>>>>                                  \* 2^14 / 2^15
 CloseVal(a, b) == IsFin(a) /\ Approx(a, b, 1, 2, Add(Abs(b), One))            \* 2^-15 relative (+2^-30)
 CloseGrad(A, C) == AllFinM(A) /\ Len(A) = Len(C) /\ ApproxM(A, C, 1, 2, Add(MaxAbsM(C), One))
 \* ... plus 2^-45 * cond (GradObj: conditioning of the soft-max gradients w.r.t. the rounding of the logged P)
@@ -33,7 +37,7 @@ DataStep(s, ev) ==
             THEN \A i \in 1..Len(ev.X) : IsTargetSet(ev.X, ev.y, i, {ev.targets[i][t] : t \in 1..Len(ev.targets[i])}, ev.k)
                                          /\ Len(ev.targets[i]) = ev.k
             ELSE TRUE
-  IN R([s EXCEPT !.algo = ev.algo, !.X = ev.X, !.y = ev.y, !.targets = ev.targets, !.reg = ev.reg, !.dataOK = ok],
+  IN R([s EXCEPT !.algo = ev.algo, !.X = ev.X, !.y = ev.y, !.targets = ev.targets, !.reg = ev.reg, !.dataOK = ok, !.lr = ev.learn_rate, !.up = ev.rate_up],
        {}, IF ok THEN {} ELSE {"X10.target_witness_rejected"})
 
 EvalStep(s, ev) ==
@@ -49,12 +53,27 @@ EvalStep(s, ev) ==
            g == LMNNGrad(ev.L, s.X, s.y, s.targets, s.reg)
            near == LMNNNearTies(ev.L, s.X, s.y, s.targets)
            clear == LMNNActiveClear(ev.L, s.X, s.y, s.targets)
-       IN R([s EXCEPT !.evals = Append(s.evals, <<ev.L, v>>)],
-            G("C10.lmnn_value_is_documented_objective", CloseVal(ev.value, v))
+           \* ---- the backtracking machine (growth of the specification, clause prefix G10): every evaluation after the first
+           \* is a TRIAL  L_cur - rate * gradient_cur  from the last accepted point; it is accepted iff its objective is not
+           \* larger (the comparison the code makes, on the numbers it logged), after which the rate grows by the factor
+           \* 1.01 (the double nearest to it, handed over in the Data event); otherwise the rate is halved.  The rate is not logged: the machine carries it.
+           logged == AllFinM(ev.L) /\ IsFin(ev.value) /\ AllFinM(ev.grad)
+           trial == DM!MSub(s.curL, DM!MScale(s.lr, s.curG))
+           onSchedule == ~s.hasCur \/ ~logged \/
+                         ApproxM(ev.L, trial, 2, 2, Add(MaxAbsM(s.curL), Mul(s.lr, MaxAbsM(s.curG))))
+           accept == ~s.hasCur \/ ~IsPos(Sub(ev.value, s.curV))
+           s1 == IF ~logged THEN s
+                 ELSE IF accept THEN [s EXCEPT !.curL = ev.L, !.curV = ev.value, !.curG = ev.grad, !.hasCur = TRUE,
+                                               !.lr = IF s.hasCur THEN Mul(s.lr, s.up) ELSE s.lr]
+                 ELSE [s EXCEPT !.lr = Mul(s.lr, Half)]
+       IN R([s1 EXCEPT !.evals = Append(s.evals, <<ev.L, v>>)],
+            G("G10.lmnn_trial_point_follows_the_backtracking_schedule", onSchedule)
+            \cup G("C10.lmnn_value_is_documented_objective", CloseVal(ev.value, v))
             \* (with a hinge at a near tie the sub-gradient the code takes is decided by rounding: value and count only)
             \cup (IF near = 0 THEN G("C10.lmnn_gradient_is_derivative_of_documented_objective", CloseGrad(ev.grad, g)) ELSE {})
             \cup G("C10.lmnn_active_constraint_count", clear <= ev.active /\ ev.active <= clear + near),
             {"C10.lmnn_value_is_documented_objective"}
+            \cup (IF s.hasCur /\ logged THEN {"G10.lmnn_trial_point_follows_the_backtracking_schedule"} ELSE {})
             \cup (IF near = 0 THEN {"C10.lmnn_gradient_is_derivative_of_documented_objective"} ELSE {"X10.hinge_near_tie"}))
   ELSE IF ~SoftmaxWitnessOK(ev.L, s.X, ev.P, ev.a, ev.e, ev.Z)
        THEN R([s EXCEPT !.evals = Append(s.evals, <<ev.L, <<2, 0, <<>>>>>>)], {}, {"X10.softmax_witness_rejected"})
